@@ -209,6 +209,9 @@ func c03(c *ev.Ctx) {
 		bcs = append(bcs, bytecase{"if (len(sprintf(\"x\"" + strings.Join(append([]string{""}, args...), ", ") + "))) { t(1); } else { t(2); } return 1;"},
 			bytecase{"function many() { v(" + strings.Join(args, ", ") + ") } many(); return 2;"})
 	}
+	for _, sc := range constIfTailScripts() {
+		bcs = append(bcs, bytecase{sc})
+	}
 	c.ParFor(len(bcs), func(i int) {
 		id := fmt.Sprintf("opbyte/%d", i)
 		if !c.Want(id) {
@@ -272,4 +275,24 @@ func optimizerChanged(script string) bool {
 		return false
 	}
 	return a.ProgramDump() != b.ProgramDump()
+}
+
+// constIfTailScripts: blocks behind a condition the optimizer can decide, without an else,
+// whose last instructions carry an operand byte that runs through every opcode value - as
+// the last, the second and the third byte from the end of the block (where a rewrite that
+// looks at bytes instead of instructions would take it for a jump or a return). Shared with C08.
+func constIfTailScripts() []string {
+	var out []string
+	for _, cond := range []string{"1 == 1", "true", "2 != 3", "0 == 0", "1 == 2", "false"} {
+		for k := 0; k <= 60; k++ {
+			out = append(out,
+				fmt.Sprintf("if (%s) { return Flag + %d; } return 0;", cond, k),
+				fmt.Sprintf("if (%s) { return %d; } return 0;", cond, 256+k),
+				fmt.Sprintf("if (%s) { x = %d; } return x;", cond, k),
+				fmt.Sprintf("if (%s) { x = Flag; y = x + %d; } return y;", cond, k*256+1),
+				fmt.Sprintf("function f(a) { if (%s) { return a + %d; } return 0; } return f(2);", cond, k),
+				fmt.Sprintf("w = 0; while (%s) { w = w + %d; return w; } return w;", cond, k))
+		}
+	}
+	return out
 }
